@@ -483,69 +483,12 @@ func allStmts(ss []*S, f func(*S)) {
 	}
 }
 
-var arithOps = map[string]bool{"add": true, "sub": true, "mul": true, "div": true, "mod": true, "pow": true, "idiv": true}
 var numeralRe = regexp.MustCompile(`^\s*[-+]?(0[xX][0-9a-fA-F]+|[0-9]+\.?[0-9]*([eE][-+]?[0-9]+)?|\.[0-9]+([eE][-+]?[0-9]+)?)\s*$`)
 
-// Rewrites are semantics-preserving program transformations (per the manual) that avoid one known defect each.
+// Rewrites are program transformations that avoid one recorded defect each while keeping the reference outcome.
+// (The rewrites for the generic-for capture, `(...)`, `^` line and assert prefix defects were retired when those
+// defects were repaired in /repo.)
 var Rewrites = map[string]func(prog []*S) []*S{
-	// generic-for variables copied into fresh locals at the top of the body
-	"forin-loopvar-capture": func(prog []*S) []*S {
-		allStmts(prog, func(s *S) {
-			if s.Op == "forin" {
-				var fresh []string
-				var vals []*E
-				for _, n := range s.Names {
-					fresh = append(fresh, n+"_r")
-					vals = append(vals, Var(n+"_r"))
-				}
-				s.Body = append([]*S{Local(append([]string{}, s.Names...), vals...)}, s.Body...)
-				s.Names = fresh
-			}
-		})
-		return prog
-	},
-	// (...) → (select(1, ...))
-	"paren-vararg-empty": func(prog []*S) []*S {
-		mapExprs(prog, func(e *E) *E {
-			if e.Op == "par" && e.Kids[0].Op == "vararg" {
-				return Par(CallN("select", &E{Op: "int", I: 1}, Vararg()))
-			}
-			return e
-		})
-		return prog
-	},
-	// a ^ b → (a ^ b): the token after the exponent is then on the same line
-	"pow-error-line": func(prog []*S) []*S {
-		mapExprs(prog, func(e *E) *E {
-			if e.Op == "bin" && e.S == "pow" {
-				return Par(e)
-			}
-			return e
-		})
-		return prog
-	},
-	// non-numeric string literal operands of arithmetic → {} (same error class, raised by the core)
-	"string-arith-error-line": func(prog []*S) []*S {
-		mapExprs(prog, func(e *E) *E {
-			if e.Op == "bin" && arithOps[e.S] {
-				for i, k := range e.Kids {
-					if k.Op == "str" && !numeralRe.MatchString(k.S) {
-						e.Kids[i] = Tbl()
-					}
-				}
-			}
-			return e
-		})
-		return prog
-	},
-	// assert implemented in Lua as the manual describes it (message is the error object, unchanged)
-	"assert-position-prefix": func(prog []*S) []*S {
-		shadow := LocalFn("assert", []string{"c"}, true,
-			If(Var("c"), []*S{Return(Var("c"), Vararg())}, nil),
-			If(Bin("eq", CallN("select", Str("#"), Vararg()), &E{Op: "int", I: 0}), []*S{CallS(CallN("error", Str("assertion failed!"), &E{Op: "int", I: 0}))}, nil),
-			CallS(CallN("error", Par(CallN("select", &E{Op: "int", I: 1}, Vararg())), &E{Op: "int", I: 0})))
-		return append([]*S{shadow}, prog...)
-	},
 }
 
 // rewriteMain: c01 rewrite <mode> <name[+name…]> <nargs> <idx>…  — regenerate the programs, rewrite, run golua.
@@ -569,10 +512,7 @@ func rewriteMain(args []string) {
 			}
 			before := canonKey(prog)
 			prog = f(prog)
-			if n != "assert-position-prefix" && canonKey(prog) != before {
-				changed = append(changed, n)
-			}
-			if n == "assert-position-prefix" && strings.Contains(before, "(var assert)") {
+			if canonKey(prog) != before {
 				changed = append(changed, n)
 			}
 		}
